@@ -16,7 +16,8 @@ from . import cbuild
 # must equal DS_WRAPPED_FUNCTIONS in harness/detsched.h
 WRAPPED = ("pthread_create pthread_join pthread_detach pthread_mutex_lock pthread_mutex_trylock pthread_mutex_unlock "
            "pthread_mutex_destroy pthread_cond_wait pthread_cond_timedwait pthread_cond_signal pthread_cond_broadcast "
-           "pthread_cond_destroy pthread_once clock_gettime nanosleep").split()
+           "pthread_cond_destroy pthread_once clock_gettime nanosleep "
+           "pthread_attr_init pthread_attr_setstacksize pthread_attr_getstacksize pthread_attr_setaffinity_np").split()
 LDFLAGS = ["-Wl,--wrap=" + f for f in WRAPPED]
 SRC = (os.path.join(cbuild.VERIF, "harness", "detsched.c"), [], "detsched")
 ATOMICS_H = os.path.join(cbuild.VERIF, "harness", "verif_atomics.h")
